@@ -51,10 +51,17 @@ func (s *c04Src) Close() error { return nil }
 // greatest last-known position is the last record, and after an overwriting call nothing else is in the index.
 func Harness_C04_batched_archive_positions() {
 	overwrite := vm.Bool("overwrite")
-	e := VerifNewEnvWith(config.PipeConfig{RecordSize: []int{20, 3}[vm.Choice("recordSize", 2)]}, config.CryptoConfig{}, config.CryptoConfig{}, overwrite)
+	rsChoice := vm.Choice("recordSize", 3)
+	e := VerifNewEnvWith(config.PipeConfig{RecordSize: []int{20, 3, 1024}[rsChoice]}, config.CryptoConfig{}, config.CryptoConfig{}, overwrite)
 	e.AddEntry("/", tar.TypeDir, 0, false, "")
 	e.P.VerifSetRoot("/")
 	e.AddEntry("/old", tar.TypeReg, 700, false, "")
+	if rsChoice == 2 {
+		// records of more than 512 blocks: an entry late in record 0 (block > 512) and a newer one early in record 1
+		e.AddEntry("/big1", tar.TypeReg, 310000, false, "")
+		e.AddEntry("/big2", tar.TypeReg, 250000, false, "")
+		e.AddEntry("/late", tar.TypeReg, 0, false, "")
+	}
 	sizes := []int{vm.Concretize(vm.Int("size0", 0, 3)), vm.Concretize(vm.Int("size1", 0, 3))}
 	members := []config.FileConfig{
 		{GetFile: func() (io.ReadSeekCloser, error) { return &c04Src{}, nil }, Info: c04Info{name: "/", mode: os.ModeDir | 0o755}, Path: "/"},
